@@ -61,5 +61,27 @@ def main():
     sys.exit(rc)
 
 
+def _private_tmp():
+    """The code under test calls tempfile.mkdtemp() (ExecutionGraph with use_tmp, --usetmp) and only removes the
+    directory in cleanup(); thousands of histories would litter /tmp.  Every run of a check gets its own temporary
+    directory under /verif/_work, removed when the process ends; directories of dead processes are swept."""
+    import atexit
+    import re
+    import shutil
+    import tempfile
+    os.makedirs(common.WORK, exist_ok=True)
+    for n in os.listdir(common.WORK):
+        m = re.fullmatch(r"tmp\.(\d+)", n)
+        if m and not os.path.exists("/proc/" + m.group(1)):
+            shutil.rmtree(os.path.join(common.WORK, n), ignore_errors=True)
+    d = os.path.join(common.WORK, "tmp.%d" % os.getpid())
+    os.makedirs(d, exist_ok=True)
+    os.environ["TMPDIR"] = d
+    tempfile.tempdir = d
+    pid = os.getpid()
+    atexit.register(lambda: os.getpid() == pid and shutil.rmtree(d, ignore_errors=True))
+
+
 if __name__ == "__main__":
+    _private_tmp()
     main()
